@@ -331,7 +331,7 @@ func c11plan(s *sim.Sim, y *c11sys, conforming bool, budget int) []c11arrival {
 }
 
 func c11Run(s *sim.Sim, p *sim.Params) {
-	s.SetLimits(3_000_000, 0)
+	s.SetLimits(5_000_000, 0)
 	s.SetMaxSimTime(3000 * time.Hour)
 	y0, mk := c11build(s, p)
 	y := mk()
@@ -340,6 +340,7 @@ func c11Run(s *sim.Sim, p *sim.Params) {
 	budget := 120
 	if p.Tier == "thorough" && s.Choose(sim.SWork, 10) == 0 {
 		budget = 1500
+		s.SetLimits(20_000_000, 0) // (thousands of requests through the whole server stack)
 	}
 	if y.n >= 60 {
 		budget *= 3
